@@ -13,6 +13,13 @@ def hx(b: bytes) -> str:
     return b.hex() if b else "-"
 
 
+def vtok(b: bytes) -> str:
+    """canonical value token: long uniform values are run-length coded (`z<len>:<hh>`), else hex"""
+    if len(b) >= 64 and b.count(b[0]) == len(b):
+        return "z%d:%02x" % (len(b), b[0])
+    return hx(b)
+
+
 class Shadow:
     """nested dict: {'n': int, 'items': {key: bytes | Shadow}}"""
 
@@ -282,7 +289,7 @@ class HistGen:
             else:
                 k = self.key() if r.random() < 0.7 else self.near_key(b.items)
                 v = self.value()
-                self.emit("put %d %d %s %s" % (t, cur_h, hx(k), hx(v)))
+                self.emit("put %d %d %s %s" % (t, cur_h, hx(k), vtok(v)))
                 if not isinstance(b.items.get(k), Shadow):
                     b.items[k] = v
             if self.p["read_after_every_op"] and cur_path is not None and sh.bucket(cur_path) is not None and handles.get(cur_h, ((), False))[1]:
@@ -299,6 +306,8 @@ class HistGen:
     def verify(self):
         if self.p.get("file"):
             self.emit("file")
+            if self.p.get("flstate"):
+                self.emit("flstate")
         t = self.next_tx
         self.next_tx += 1
         self.emit("begin %d r" % t)
@@ -359,7 +368,7 @@ def gen_range_deletes(nkeys, klen=200, vlen=10, every_bucket=0, touch=None, page
                     lines.append("mkb 1 %d 1 %s" % (100 + x, hx(dkey(x, klen))))
                     lines.append("put 1 %d %s %s" % (100 + x, hx(b"inner"), hx(b"v")))
                 else:
-                    lines.append("put 1 1 %s %s" % (hx(dkey(x, klen)), hx(bytes([65 + x % 26]) * vlen)))
+                    lines.append("put 1 1 %s %s" % (hx(dkey(x, klen)), vtok(bytes([65 + x % 26]) * vlen)))
             lines.append("commit 1")
             lines.append("begin 2 w")
             lines.append("getb 2 1 0 %s" % hx(b"root"))
@@ -447,7 +456,7 @@ def gen_emptied_leaves(nkeys, seed, n, klen=200, pagesize=1024):
             if every_bucket and x % every_bucket == 0:
                 lines.append("mkb 1 %d 1 %s" % (100 + x, hx(dkey(x, klen))))
             else:
-                lines.append("put 1 1 %s %s" % (hx(dkey(x, klen)), hx(bytes([65 + x % 26]) * 10)))
+                lines.append("put 1 1 %s %s" % (hx(dkey(x, klen)), vtok(bytes([65 + x % 26]) * 10)))
             keys.add(dkey(x, klen))
         lines.append("commit 1")
         lines.append("begin 2 w")
@@ -497,7 +506,7 @@ def gen_queries(seed, n, pagesize=1024):
                 hn += 1
                 lines.append("mkb 1 %d 1 %s" % (hn, hx(k)))
             else:
-                lines.append("put 1 1 %s %s" % (hx(k), hx(bytes([r.randrange(256)]) * r.choice([0, 1, 20, 300]))))
+                lines.append("put 1 1 %s %s" % (hx(k), vtok(bytes([r.randrange(256)]) * r.choice([0, 1, 20, 300]))))
             keys.add(k)
         read_battery(lines, 1, 1, keys, r, 8, 16)
         lines.append("commit 1")
@@ -614,6 +623,8 @@ def gen_c03(seed, n, k_readers=4, pagesize=1024, numpages=12000):
         r = g.rng
         g.header("c3-%d" % c)
         g.write_tx(r.randrange(30, 80))
+        g.emit("file")
+        g.emit("flstate")
         readers = []
         for step in range(r.randrange(8, 20)):
             x = r.random()
@@ -627,6 +638,9 @@ def gen_c03(seed, n, k_readers=4, pagesize=1024, numpages=12000):
                 g.emit("drop %d" % t)
             else:
                 g.write_tx(r.randrange(5, 50))
+                if g.lines[-1].startswith("commit"):
+                    g.emit("file")
+                    g.emit("flstate")
             for t in readers:
                 g.emit("dump %d" % t)
         for t in readers:
@@ -680,13 +694,22 @@ def gen_growth(seed, n):
         total = 0
         keys = []
         target = 30 * 1024 * 1024
+        burst_at = r.randrange(0, 6)
+        ntx = 0
         while total < target:
             lines.append("begin %d w" % t)
             lines.append("gocb %d 1 0 %s" % (t, hx(b"g")))
+            ntx += 1
+            if ntx == burst_at + 1:
+                # one commit that grows the file by more than one extension step at once
+                nburst = r.choice([3, 5])
+                for j in range(nburst):
+                    lines.append("put %d 1 %s %s" % (t, hx(b"burst%d" % j), vtok(bytes([r.randrange(256)]) * (4 * 1024 * 1024 + r.randrange(0, 4096)))))
+                total += nburst * 4 * 1024 * 1024
             for _ in range(r.randrange(1, 6)):
                 k = b"g%06d" % r.randrange(0, 100000)
                 vlen = r.choice([ps // 2, ps, ps * 2 + 17, 100])
-                lines.append("put %d 1 %s %s" % (t, hx(k), hx(bytes([r.randrange(256)]) * min(vlen, 300000))))
+                lines.append("put %d 1 %s %s" % (t, hx(k), vtok(bytes([r.randrange(256)]) * min(vlen, 300000))))
                 total += min(vlen, 300000) + ps
                 keys.append(k)
             lines.append("commit %d" % t)
@@ -701,5 +724,65 @@ def gen_growth(seed, n):
         lines.append("begin %d r" % t)
         lines.append("dump %d" % t)
         lines.append("drop %d" % t)
+        lines.append("close")
+    return lines
+
+
+# ---- C10: long runs with bounded live data -----------------------------------------------------
+def gen_c10(seed, n, ntx=120, pagesize=1024, numpages=4000):
+    """soak workloads: fixed-size / variable-size overwrite, delete and bucket-delete with bounded
+    live data; periodic reopen; a reader held for a stretch (file pre-sized: the documented
+    self-deadlock when a commit must grow the file while a reader is open on the same thread)."""
+    lines = []
+    for c in range(n):
+        r = random.Random(seed * 7907 + c)
+        kind = ["fixed", "variable", "buckets"][c % 3]
+        lines.append("hist c10-%d-%s" % (c, kind))
+        lines.append("cfg pagesize=%d numpages=%d strict=0 populate=0" % (pagesize, numpages))
+        lines.append("open")
+        t = 1
+        h = 1
+        reader = None
+        nkeys = 60
+        for i in range(ntx):
+            lines.append("begin %d w" % t)
+            if kind == "buckets":
+                bname = b"bk%d" % (i % 4)
+                if i >= 4 and r.random() < 0.5:
+                    lines.append("delb %d 0 %s" % (t, hx(bname)))
+                lines.append("gocb %d %d 0 %s" % (t, h, hx(bname)))
+            else:
+                lines.append("gocb %d %d 0 %s" % (t, h, hx(b"soak")))
+            for _ in range(r.randrange(3, 14)):
+                k = dkey(r.randrange(nkeys), 60)
+                if r.random() < 0.25:
+                    lines.append("del %d %d %s" % (t, h, hx(k)))
+                else:
+                    vlen = 300 if kind == "fixed" else r.choice([0, 10, 300, 900, 2500])
+                    lines.append("put %d %d %s %s" % (t, h, hx(k), vtok(bytes([r.randrange(256)]) * vlen)))
+            lines.append("commit %d" % t)
+            lines.append("file")
+            lines.append("flstate")
+            t += 1
+            h += 1
+            if reader is None and r.random() < 0.04:
+                reader = t
+                lines.append("begin %d r" % t)
+                t += 1
+            elif reader is not None and r.random() < 0.12:
+                lines.append("dump %d" % reader)
+                lines.append("drop %d" % reader)
+                reader = None
+            elif reader is None and r.random() < 0.05:
+                lines.append("reopen")
+                lines.append("file")
+                lines.append("flstate")
+        if reader is not None:
+            lines.append("dump %d" % reader)
+            lines.append("drop %d" % reader)
+        lines.append("begin %d r" % t)
+        lines.append("dump %d" % t)
+        lines.append("drop %d" % t)
+        lines.append("dbcheck")
         lines.append("close")
     return lines
